@@ -293,6 +293,8 @@ LITERALS = [
     ("bigint", "18446744073709551616"), ("int64-max+1", "9223372036854775808"),
     ("negbig", "-9223372036854775809"), ("str", "'lit'"), ("none", "None"), ("bytes", "b'lit'"),
     ("complex", "2j"), ("ellipsis", "..."), ("float", "2.5"), ("bool", "True"), ("inf", "1e999"),
+    # indices / sizes / shift amounts just outside what the construct supports
+    ("minus-one", "-1"), ("minus-three", "-3"), ("seven", "7"),
 ]
 
 
@@ -541,6 +543,10 @@ def m_unreachable(main_src):
             body = getattr(owner, attr)
             body.insert(si, copy.deepcopy(ret) if ret is not None else ast.Return(None))
             yield Mutant("unreachable-after-return", f"{bi}.{si}", _unparse(tree))
+            # ... and the dead code directly behind the jump uses names that are defined nowhere
+            body.insert(si + 1, _stmts("dead_v = undefined_v + 1\nundefined_f(dead_v)")[0])
+            body.insert(si + 2, _stmts("dead_v = undefined_v + 1\nundefined_f(dead_v)")[1])
+            yield Mutant("unreachable-undefined-after-return", f"{bi}.{si}", _unparse(tree))
     # move each top-level statement behind the final return
     n = len(fn0.body)
     for si in range(n - 1):
@@ -559,6 +565,8 @@ def m_unreachable(main_src):
             owner, attr = _bodies(_fn(tree))[bi]
             getattr(owner, attr).insert(0, kw())
             yield Mutant("unreachable-after-jump", f"{bi}:{kw.__name__}", _unparse(tree))
+            getattr(owner, attr).insert(1, _stmts("dead_v = undefined_v + 1")[0])
+            yield Mutant("unreachable-undefined-after-jump", f"{bi}:{kw.__name__}", _unparse(tree))
 
 
 def m_wrap_nested(main_src):
@@ -880,7 +888,8 @@ def m_explicit_type_args(main_src):
 
 
 POSTFIX = ["{v}.nope", "{v}[0]", "{v}()", "{v}.copy()", "-{v}", "not {v}", "{v} @ owned", "{v}.q", "{v}[0][0]",
-           "{v}.__class__", "{v}.__add__", "{v}[{v}]", "({v}, {v})", "{v} + {v}", "{v} < {v}", "{v} and {v}"]
+           "{v}.__class__", "{v}.__add__", "{v}[{v}]", "({v}, {v})", "{v} + {v}", "{v} < {v}", "{v} and {v}",
+           "{v}[-1]", "{v}[-3]", "{v}[1]"]
 
 
 def m_postfix(main_src):
